@@ -2,7 +2,7 @@
 # Replay for suspected defect c12_sticky_nd (echsd.c run_task(): the static
 # argv slot args[2] is set to "-nd" once and never reset).
 #
-# Usage: ./run.sh            (needs root: uses unshare -m -n for isolation)
+# Usage: ./run.sh            (needs root: uses unshare -m -n -p for isolation)
 #
 # Isolation: the unmodified echsd binary is copied into a `mktemp -d` dir
 # (echsd looks for its executor as dirname(/proc/self/exe)/echsx) and run in
@@ -46,7 +46,7 @@ EOX
 	rc=0
 	for S in 1 2 3; do
 		mkdir -p "$T/spool$S"
-		timeout 40 unshare -m -n "$0" --inner "$T" $S || rc=1
+		timeout 40 unshare -m -n -p -f --kill-child --mount-proc "$0" --inner "$T" $S || rc=1
 	done
 	echo
 	echo "================ summary ================"
